@@ -882,11 +882,46 @@ def run_fixedidx(chk, F, rid="R-FIXEDIDX"):
         labels = {n["v"].get("name") for n in walk(fn["body"]) if n.get("k") == "case" and isinstance(n.get("v"), dict) and
                   n["v"].get("k") == "ref"}
         bad, sites = [], 0
+        # local lambdas (`auto both = [&](pred p) { return p(expr[0]) && p(expr[1]); };` ahead of the switch): what
+        # their bodies read counts for the kinds whose code invokes them, not for every kind
+        lam_of, lam_body = {}, {}
+        for d in walk(fn["body"]):
+            if d.get("k") == "decl":
+                for v in d.get("vars", []):
+                    i0 = strip(v["init"]) if v.get("init") is not None else None
+                    if isinstance(i0, dict) and i0.get("k") == "lambda":
+                        lam_body[v.get("name")] = i0
+                        for z in walk(i0.get("body") or {}):
+                            lam_of.setdefault(id(z), v.get("name"))
+
+        def invoked(nodes_root):
+            out, todo = set(), []
+            for z in walk(nodes_root):
+                if z.get("k") == "call" and z.get("ck") == "op" and z.get("op") == "()" and id(z) not in lam_of:
+                    r0 = strip(z["recv"]) if isinstance(z.get("recv"), dict) else None
+                    nm0 = r0.get("name") if isinstance(r0, dict) else None
+                    if nm0 in lam_body:
+                        todo.append(nm0)
+            while todo:
+                nm0 = todo.pop()
+                if nm0 in out:
+                    continue
+                out.add(nm0)
+                for z in walk(lam_body[nm0].get("body") or {}):
+                    if z.get("k") == "call" and z.get("ck") == "op" and z.get("op") == "()":
+                        r0 = strip(z["recv"]) if isinstance(z.get("recv"), dict) else None
+                        if isinstance(r0, dict) and r0.get("name") in lam_body:
+                            todo.append(r0["name"])
+            return out
         for K in sorted(k for k in labels if k):
             ar = tab.get(K)
             if not isinstance(ar, int):
                 continue
-            for c in calls(sl.slice(K)):
+            slk = sl.slice(K)
+            live = invoked(slk) if lam_body else set()
+            for c in calls(slk):
+                if id(c) in lam_of and lam_of[id(c)] not in live:
+                    continue
                 if c.get("cls") != "UTAP::expression_t" or not (c.get("name") == "get" or (c.get("ck") == "op" and c.get("op") == "[]")):
                     continue
                 a = c.get("args") or []
@@ -1262,6 +1297,8 @@ def run_datacast(chk, F, rid="R-DATACAST"):
             sym = sym_of(site)
             ok = False
             for c, t in conds:
+                while isinstance(strip(c), dict) and strip(c).get("k") == "un" and strip(c).get("op") == "!":
+                    c, t = strip(c)["e"], not t          # `if (!holds_variable(s)) continue;`
                 txt = short(c)
                 about = (sym + ".get_type()") in txt or any(nm in txt and typel[nm] == sym for nm in typel) or \
                     any(any(short(a) == sym for a in z.get("args", [])) for z in calls(c))
